@@ -62,7 +62,7 @@ def build(u):
         with u.mod("error"):
             u.take_ext(err, ["Error", "HyperErrorType", "WireServerErrorType", "KeyErrorType", "AclErrorType", "BpfErrorType"], "vx_ext_error", uses="use http::{uri::InvalidUri, StatusCode};")
         with u.mod("result", uses="use super::error::Error;"):
-            u.raw("pub type Result<T> = core::result::Result<T, Error>;")
+            u.raw("pub type Result<T> = core::result::Result<T, Error>;", names=("Result",))
         with u.mod("constants"):
             for n in ("WIRE_SERVER_IP", "WIRE_SERVER_PORT", "GA_PLUGIN_IP", "GA_PLUGIN_PORT", "IMDS_IP", "IMDS_PORT", "PROXY_AGENT_IP", "PROXY_AGENT_PORT",
                       "CLAIMS_IS_ROOT", "CLAIMS_HEADER", "AUTHORIZATION_HEADER", "DATE_HEADER", "AUTHORIZATION_SCHEME"):
@@ -180,7 +180,7 @@ def build(u):
                  fwd_ok(request, orig),        // @C05+C14+C15.HttpConnectionContext_send_request.host_receives_client_request_with_proxy_headers
 """)
 
-        with u.mod("proxy_server", uses="use crate::provision;\nuse crate::common::{constants, error::{Error, HyperErrorType}, helpers, hyper_client, logger, result::Result};\nuse crate::proxy::proxy_connection::{ConnectionLogger, HttpConnectionContext, TcpConnectionContext};\nuse crate::proxy::{proxy_authorizer, proxy_authorizer::AuthorizeResult, proxy_summary::ProxySummary, Claims};\nuse crate::shared_state::agent_status_wrapper::AgentStatusSharedState;\nuse crate::shared_state::key_keeper_wrapper::KeyKeeperSharedState;\nuse crate::shared_state::provision_wrapper::ProvisionSharedState;\nuse crate::shared_state::proxy_server_wrapper::ProxyServerSharedState;\nuse crate::shared_state::redirector_wrapper::RedirectorSharedState;\nuse crate::shared_state::telemetry_wrapper::TelemetrySharedState;\nuse http_body_util::Full;\nuse http_body_util::{combinators::BoxBody, BodyExt};\nuse hyper::body::{Bytes, Frame, Incoming};\nuse hyper::header::{HeaderName, HeaderValue};\nuse hyper::StatusCode;\nuse hyper::{Request, Response};\nuse log::Level as LoggerLevel;\nuse crate::proxy_agent_shared::misc_helpers;\nuse crate::proxy_agent_shared::telemetry::event_logger;\nuse tokio_util::sync::CancellationToken;\nuse tower_http::body::Limited;"):
+        with u.mod("proxy_server", uses="use crate::provision;\nuse crate::common::{constants, error::{Error, HyperErrorType}, helpers, hyper_client, logger, result::Result};\nuse crate::proxy::proxy_connection::{ConnectionLogger, HttpConnectionContext, TcpConnectionContext};\nuse crate::proxy::{proxy_authorizer, proxy_authorizer::AuthorizeResult, proxy_summary::ProxySummary, Claims};\nuse crate::shared_state::agent_status_wrapper::AgentStatusSharedState;\nuse crate::shared_state::key_keeper_wrapper::KeyKeeperSharedState;\nuse crate::shared_state::provision_wrapper::ProvisionSharedState;\nuse crate::shared_state::proxy_server_wrapper::ProxyServerSharedState;\nuse crate::shared_state::redirector_wrapper::RedirectorSharedState;\nuse crate::shared_state::telemetry_wrapper::TelemetrySharedState;\nuse http_body_util::Full;\nuse http_body_util::{combinators::BoxBody, BodyExt};\nuse hyper::body::{Bytes, Frame, Incoming};\nuse hyper::header::{HeaderName, HeaderValue};\nuse hyper::StatusCode;\nuse hyper::{Request, Response};\nuse log::Level as LoggerLevel;\nuse crate::proxy_agent_shared::misc_helpers;\nuse crate::proxy_agent_shared::telemetry::event_logger;\nuse tokio_util::sync::CancellationToken;\nuse tower_http::{body::Limited, limit::RequestBodyLimitLayer};"):
             u.take(ps, "ProxyServer", "struct", keep_derive=("Clone",))
             with u.impl_(ps, "ProxyServer"):
                 u.take_fn(ps, "ProxyServer::empty_response", e9=status_e9(), contract="""
@@ -341,4 +341,26 @@ let ghost orig = fwd_spec_of(request, if tcp_connection_context.claims is Some {
                 && final(tr).failed.last() == denial_event(tcp_connection_context, status_const(403)),   // @C11.handle_new_http_request.every_denial_recorded_exactly_once_under_callers_identity
             final(tr).decisions != old(tr).decisions && final(tr).decisions.last() == AuthorizeResult::Forbidden ==>
                 status_code(resp_status(r->Ok_0)) == 403 && body_is_empty(resp_body(r->Ok_0)),   // @C11.handle_new_http_request.enforce_answers_403
+""")
+
+            # ---- C15: the body-limit layer chosen per request (E5c slice of the service_fn closure in handle_new_tcp_connection) ----
+            for n in ("REQUEST_BODY_LOW_LIMIT_SIZE", "REQUEST_BODY_LARGE_LIMIT_SIZE"):
+                u.take(ps, n, "const")
+            tc = ps.item("ProxyServer::handle_new_tcp_connection", "fn")
+            outer = [c for c in tc["closures"] if ps.s(c["span"][0], c["span"][1]).startswith("move |req|")]
+            if len(outer) != 1:
+                raise Undecided("handle_new_tcp_connection: service_fn closure `move |req|` not found exactly once (%d)" % len(outer))
+            blk = [b for b in tc["blocks"] if b["span"] == outer[0]["body"]]
+            if len(blk) != 1:
+                raise Undecided("handle_new_tcp_connection: closure body block not found")
+            stmts = blk[0]["stmts"]
+            ends = [i for i, st in enumerate(stmts) if ps.s(st[0], st[1]).lstrip().startswith("let tower_service_layer")]
+            if len(ends) != 1:
+                raise Undecided("handle_new_tcp_connection: `let tower_service_layer = ...` not found in the closure")
+            u.slice_fn(ps, "ProxyServer::handle_new_tcp_connection", "vx_slice_choose_body_limit", stmts[0][0], stmts[ends[0]][1],
+                       "req: &Request<Incoming>", ret_type="tower::ServiceBuilder<tower::layer::util::Stack<RequestBodyLimitLayer, tower::layer::util::Identity>>",
+                       pre_body="broadcast use axiom_any_limit;\n", tail="tower_service_layer\n",
+                       what="(statements of the service_fn closure that pick the RequestBodyLimitLayer)",
+                       contract="""
+        ensures sb_limit(r) == (if skip_spec(req_method(*req), req_uri(*req)) { 104857600usize } else { 102400usize }),  // @C15.choose_body_limit.100KiB_unless_exempt_then_100MiB
 """)
